@@ -1338,7 +1338,7 @@ def run(check):
         bound = 2 if len(reqs) <= 2 else 1
         if not quick:
             bound += 1
-        budget = (150 if len(reqs) <= 2 else 80) if quick else (800 if len(reqs) <= 2 else 500)
+        budget = (300 if len(reqs) <= 2 else 160) if quick else (800 if len(reqs) <= 2 else 500)
         for r in explore(check, reqs, None, bound, budget):
             account(r, 'access_level')
             handle(check, r, cases)
@@ -1347,7 +1347,7 @@ def run(check):
     phase('access_level')
     # 2. line-granularity exploration (sys.settrace line+return events inside the shared-state code)
     for reqs in unit_scenarios(check, tier)[:N_FIXED_UNIT]:
-        budget = 40 if quick else 600
+        budget = 80 if quick else 600
         for r in explore(check, reqs, LINE_FUNCS_SHARED, 1 if quick else 2, budget):
             account(r, 'line_level')
             handle(check, r, cases)
@@ -1356,12 +1356,12 @@ def run(check):
     phase('line_level')
     # 3. end-to-end WSGI requests (SOAP calls, faults, validation failures, ?wsdl) at line granularity
     for reqs in http_scenarios(check, tier):
-        budget = 28 if quick else 150
+        budget = 50 if quick else 150
         for r in explore(check, reqs, LINE_FUNCS_SHARED, 1 if quick else 2, budget):
             account(r, 'http')
             handle(check, r, cases)
         # randomized stress: switch points at EVERY line of every spyne/ function
-        for _ in range(6 if quick else 40):
+        for _ in range(10 if quick else 40):
             r = run_once(reqs, RandomChooser(check.rng, check.rng.choice([0.002, 0.01, 0.05])), 'ALL')
             r['lines'] = 'ALL'
             account(r, 'random_all_lines')
